@@ -442,6 +442,28 @@ pub fn check_c16(ctx: &Ctx, known: &KnownFindings) -> Report {
     rep.exhaustive = Some(true);
     rep.extra.insert("exhaustive_subspace".into(), json!(format!("all schedules of length 1..{} over 2 threads x {{fail(name conversion), fail(record text), read}}, and of length 1..{} over 2 threads x {{fail(second question), fail(rename to root), read}} and x {{fail(packet too large), fail(void record), read}} = {} schedules, executed in lock-step", maxlen, maxlen - 1, n)));
     rep.stats.sample("exhaustive", json!({"schedule": "[(0,fail0),(1,fail2),(0,read)]", "expected": "thread 0 reads the name-conversion failure"}));
+    // counter wrap: a thread fails and reads, exactly N failures happen on another thread, the first
+    // thread fails again (another kind) and reads: N around 2^8 and 2^16 (a serial number or slot index
+    // kept in a narrow integer comes round to the same value)
+    {
+        let mut gaps: Vec<usize> = vec![254, 255, 256, 257, 65534, 65535, 65536, 65537];
+        if ctx.tier == Tier::Thorough {
+            gaps.extend([65530, 65531, 65532, 65533, 65538, 131070, 131071, 131072, 131073]);
+        }
+        let r = catch(|| -> PResult {
+            for &n in &gaps {
+                let mut arena = Arena::new(2);
+                let mut sched: Vec<(usize, usize)> = vec![(0, 0), (0, FAIL_KINDS)];
+                sched.extend(std::iter::repeat((1usize, 1usize)).take(n));
+                sched.extend([(0, 4), (0, FAIL_KINDS), (1, FAIL_KINDS)]);
+                arena.run(&sched).map_err(|f| Failure::new(f.sig, format!("after exactly {} failures on the other thread: {}", n, f.detail.chars().take(600).collect::<String>())))?;
+            }
+            Ok(())
+        });
+        rep.stats.class("foreign-failures-between:2^8,2^16");
+        rep.stats.evals += gaps.len() as u64;
+        rep.direct("counter wrap", r, &ks);
+    }
     // many live threads: 70 threads fail once, then each fails again in turn while all others re-read
     {
         let n = 70;
@@ -479,9 +501,9 @@ pub fn check_c16(ctx: &Ctx, known: &KnownFindings) -> Report {
     let prop = (200usize, c16_case);
     let r = drive(&prop, ctx.cases(20_000, 400_000), ctx, 16, &ks);
     rep.absorb(r);
-    rep.rule = "schedules = sequences of (thread, fail_k | read) executed exactly: each schedule thread is an OS thread that performs one table call per command received over a channel and replies before the next command is issued (the harness owns the interleaving). fail_k are twelve failing table calls (raw_name_from_str x4, add_to_answer with unparsable text / at the 8192-byte limit, add_to_question, rename_with_raw_names with an empty / a root target, and inside an iter_answer callback a second delete and set_raw_name with a malformed / a compressed name) covering payload-free error kinds (Parse error, Packet too large, Void record), payload-carrying ones and the two descriptions longer than 64 bytes; read = error_description(err) with that thread's err pointer. Oracle: model of per-thread last failure (descriptions taken from the native API); every read returns it. Exhaustive for 2 threads x 2 failure kinds x read up to the stated length, for three pairs of kinds (short payload-carrying, the two longest descriptions, two payload-free kinds); random for 3-4 threads, length <= 40, packet-level failures on the thread's own packet or on one of two packets handed between the threads; one deterministic schedule with 70 live threads; one with 300 short-lived failing threads while an early thread keeps re-reading its description. Non-trivial: a read whose thread's last failure precedes a failure on another thread.".into();
+    rep.rule = "schedules = sequences of (thread, fail_k | read) executed exactly: each schedule thread is an OS thread that performs one table call per command received over a channel and replies before the next command is issued (the harness owns the interleaving). fail_k are twelve failing table calls (raw_name_from_str x4, add_to_answer with unparsable text / at the 8192-byte limit, add_to_question, rename_with_raw_names with an empty / a root target, and inside an iter_answer callback a second delete and set_raw_name with a malformed / a compressed name) covering payload-free error kinds (Parse error, Packet too large, Void record), payload-carrying ones and the two descriptions longer than 64 bytes; read = error_description(err) with that thread's err pointer. Oracle: model of per-thread last failure (descriptions taken from the native API); every read returns it. Exhaustive for 2 threads x 2 failure kinds x read up to the stated length, for three pairs of kinds (short payload-carrying, the two longest descriptions, two payload-free kinds); random for 3-4 threads, length <= 40, packet-level failures on the thread's own packet or on one of two packets handed between the threads; one deterministic schedule with 70 live threads; one with 300 short-lived failing threads while an early thread keeps re-reading its description; schedules with exactly 254..257 and 65534..65537 failures on another thread between a thread's read and its next failure. Non-trivial: a read whose thread's last failure precedes a failure on another thread.".into();
     rep.assumptions = vec!["interleavings are explored at the granularity of whole table calls (the property's own granularity); interleavings inside throw_err are not".into(), "a read before the thread's first failure is not judged (err pointer still NULL)".into()];
-    rep.require(&["exhaustive-schedules", "threads:3", "threads:4", "read-after-foreign-failure", "many-live-threads:70", "short-lived-threads:300"]);
+    rep.require(&["exhaustive-schedules", "threads:3", "threads:4", "read-after-foreign-failure", "many-live-threads:70", "short-lived-threads:300", "foreign-failures-between:2^8,2^16"]);
     rep
 }
 
